@@ -1,4 +1,5 @@
 import AfqmcVerif.Model.Dets
+import AfqmcVerif.Lemmas.Sign
 import AfqmcVerif.Lemmas.Estimator
 import Mathlib.LinearAlgebra.Matrix.DotProduct
 import Mathlib.Data.Matrix.Mul
@@ -35,17 +36,21 @@ theorem read_write_roundtrip (a b : List Bool) (h : a.length = b.length) :
   exact Prod.ext (List.map_fst_zip (by omega)) (List.map_snd_zip (by omega))
 
 /-! ## sign convention: `parity` is the sign of the permutation sorting the in-place replaced
-reference string — **any reference**, any excitation rank.  Proved here exhaustively for up to five
-orbitals (`_partial`; the statement for every size is the lemma "replacing one value changes the
-inversion count by the number of elements strictly between", not formalised) -/
+reference string — **any reference**, any excitation rank, **any number of orbitals**.
 
-def signAgrees (n : Nat) : Bool :=
-  (allOcc n).all fun d0 => (allOcc n).all fun d =>
-    popcount d0 != popcount d || parity d0 d == sortSign d0 d
+The proof (`Lemmas/Sign.lean`) follows the loop: replacing one value `c` of a duplicate-free list by a new
+value `d` changes the inversion count, mod 2, by the number of entries strictly between `c` and `d`
+wherever they sit (`invCount_replace`); the evolving occupation vector and the evolving list describe the
+same set (`Rep.step`), so the loop's count is that number; replacing the holes one after the other is the
+simultaneous in-place replacement (`seqReplace_eq_map`); the reference string starts sorted. -/
 
-theorem parity_is_sorting_sign_partial : signAgrees 1 = true ∧ signAgrees 2 = true ∧ signAgrees 3 = true ∧
-    signAgrees 4 = true ∧ signAgrees 5 = true := by
-  refine ⟨by decide +kernel, by decide +kernel, by decide +kernel, by decide +kernel, by decide +kernel⟩
+theorem parity_is_sorting_sign (d0 d : List Bool) (hl : d0.length = d.length) (hp : popcount d0 = popcount d) :
+    parity d0 d = sortSign d0 d :=
+  parity_eq_sortSign d0 d (holes_particles_length d0 d hl hp)
+
+/-- non-vacuity / regression: the statement evaluated on a non-aufbau reference with nested downward moves -/
+example : parity [false, false, true, true] [true, true, false, false] = 1
+    ∧ sortSign [false, false, true, true] [true, true, false, false] = 1 := by decide
 
 /-! ## zero variance -/
 
